@@ -380,7 +380,7 @@ func init() {
 	finders := map[string]bool{"(*disjoint.Set).Find": true, "(*disjoint.Set).FindBuffered": true}
 	register(&propDef{
 		id:          "C18",
-		explanation: "Decides two representation-level necessary conditions of the parent-forest encoding (negative entry = root): ROOTLINK (in Union and UnionBuffered every store into the set indexes a value returned by Find/FindBuffered in that call, i.e. a root, and stores either the other root (link) or that root's own entry minus one (rank bump), never a rank bump of a root already linked away), COMPRESS (in Find and FindBuffered every store into the set writes exactly the value the function goes on to return, so a lookup can only re-point an element at the root of its own tree), plus READONLY for Roots and WRITE-SCOPE (the buffered variants write only the set and buf). Does not decide the partition itself.",
+		explanation: "Decides two representation-level necessary conditions of the parent-forest encoding (negative entry = root): ROOTLINK (in Union and UnionBuffered every store into the set indexes a value returned by Find/FindBuffered in that call, i.e. a root, and stores either the other root (link) or that root's own entry minus one (rank bump), never a rank bump of a root already linked away), COMPRESS (in Find and FindBuffered every store into the set writes exactly the value the function goes on to return, so a lookup can only re-point an element at the root of its own tree), plus READONLY for Roots, WRITE-SCOPE (the buffered variants write only the set and buf) and FIXEDARRAY (no fixed-size scratch array is indexed by a path-length counter that is not proved in range: union by rank bounds the height only while every union keeps the ranks). Does not decide the partition itself.",
 		notDecided:  []string{"that two elements have the same representative exactly when connected by the unions so far", "Sets / SmallestRep / Roots describe that partition", "other compression schemes than compress-to-root and path halving (e.g. path splitting written differently) would be reported"},
 		assumptions: []string{"Find returns a root (value-level; not decided)"},
 		run: func(c *Ctx, tier string) []*RuleResult {
@@ -399,7 +399,7 @@ func init() {
 				fn := c.Fn(n)
 				onlyWrites(c, ws, fn, []int{0, paramIndex(fn, "buf")}, "the set and buf")
 			}
-			return []*RuleResult{rl, cp, ws}
+			return []*RuleResult{rl, cp, ws, ruleFixedArray(c, "disjoint")}
 		},
 		controls: func(ctl *Ctx) []*RuleResult {
 			f := map[string]bool{"(*dsctl.Set).Find": true}
